@@ -110,6 +110,53 @@ def abstract_cells(arr, vals, np):
     return out
 
 
+def long_table(chk, np, Program, libs, wd, rng):
+    """row order and count on a file far longer than the model's tables (blank lines sprinkled in)"""
+    n = 5000 + rng.randint(0, 300)
+    vals = [float(i) * 0.5 - 7 for i in range(n)]
+    lines = ["idx,v"]
+    for i, x in enumerate(vals):
+        lines.append("%d,%r" % (i, x))
+        if i % 977 == 5:
+            lines.append("")
+    with open(os.path.join(wd, "long.csv"), "w") as f:
+        f.write("\n".join(lines) + "\n")
+    p = Program(libraries=libs, working_dir=wd)
+    p.add_command(p.find_command_class("EEMSRead"), "L", OrderedDict([("InFileName", "long.csv"), ("InFieldName", "v")]))
+    chk.cov["evaluations"] += 1
+    try:
+        arr = p.commands["L"].result
+        ok = len(arr) == n and bool(np.array_equal(np.ma.getdata(arr), np.array(vals))) and not np.ma.getmaskarray(arr).any()
+    except BaseException as e:
+        ok = False
+    if not ok:
+        chk.finding("C17:csv:C17.Order:long-table", "a %d-row column did not come back complete and in row order" % n, {"rows": n})
+
+
+def odd_headers(chk, np, Program, libs, wd):
+    """header names that need CSV quoting because they contain a line break, and names containing characters that some line
+    splitters treat as line ends (form feed, NEL, U+2028): the columns behind them must still be found and read in order"""
+    names = ["plain", "elev\n(m)", "ff\x0cname", "nel\x85name", "ls\u2028name", "last"]
+    rows = [[float(10 * r + c) for c in range(len(names))] for r in range(4)]
+    import csv as _csv
+    with open(os.path.join(wd, "odd.csv"), "w", newline="", encoding="utf-8") as f:
+        w = _csv.writer(f, lineterminator="\n")
+        w.writerow(names)
+        w.writerows(rows)
+    for ci, nm in enumerate(names):
+        p = Program(libraries=libs, working_dir=wd)
+        p.add_command(p.find_command_class("EEMSRead"), "R", OrderedDict([("InFileName", "odd.csv"), ("InFieldName", nm)]))
+        chk.cov["evaluations"] += 1
+        try:
+            arr = p.commands["R"].result
+            ok = [float(x) for x in np.ma.getdata(arr)] == [r[ci] for r in rows]
+            got = repr(arr)[:120]
+        except BaseException as e:
+            ok, got = False, "%s: %s" % (type(e).__name__, str(e)[:120])
+        if not ok:
+            chk.finding("C17:csv:C17.Header:odd-name", "column %r was not read correctly: %s" % (nm, got), {"header": names, "requested": nm})
+
+
 def check_C17(tier):
     chk = core.Check("C17", tier)
     core.sut()
@@ -121,12 +168,13 @@ def check_C17(tier):
     from mpilot.exceptions import MPilotError
     from vprobe import cmds as vp
 
-    rbig, _ = gen_cases(3, 2 if tier == "quick" else 3, dump=False, workers=16)
-    chk.add_tlc("CsvIO laws (no replay)", rbig, "MaxRows=3 MaxCols=%d invariants RowOrder, ColumnIndependent, MaskExact, RoundTrip, ErrorLineIsPhysical" % (2 if tier == "quick" else 3))
+    if tier == "thorough":
+        rbig, _ = gen_cases(3, 2, dump=False, workers=16)
+        chk.add_tlc("CsvIO laws on three-row tables (no replay)", rbig, "MaxRows=3 MaxCols=2 invariants RowOrder, ColumnIndependent, MaskExact, RoundTrip, ErrorLineIsPhysical")
     r, cases = gen_cases(2, 2)
     chk.add_tlc("CsvIO replay plan", r, "MaxRows=2 MaxCols=2")
     chk.cov["model_cases"] = len(cases)
-    step = 4 if tier == "quick" else 1
+    step = 10 if tier == "quick" else 1
     cases = [c for i, c in enumerate(cases) if i % step == core.SEED % step]
     rng = random.Random(core.SEED + 17)
     wd = core.scratch_dir("mpv-csvwd-")
@@ -226,9 +274,11 @@ def check_C17(tier):
                          "observed": rec["obs"], "written_and_read_back": rec["wobs"]})
         elif len(chk.cov["samples"]) < 3 and rec["id"] % 911 == 5:
             chk.sample({"file_text": text, "arguments": {k: str(x) for k, x in args.items()}, "observed": rec["obs"], "written_and_read_back": rec["wobs"]})
-    chk.cov["rule"] = ("TLC enumerates tables (<= 3 rows x <= 2-3 columns; cells: four distinct numbers, the missing value, non-numeric text; blank lines; short rows; header names with spaces and commas), "
+    long_table(chk, np, Program, libs, wd, rng)
+    odd_headers(chk, np, Program, libs, wd)
+    chk.cov["rule"] = ("TLC enumerates tables (<= 2 rows (thorough 3) x <= 2 columns; cells: four distinct numbers, the missing value, non-numeric text; blank lines; short rows; header names with spaces and commas), "
                        "every requested field incl. an absent one, MissingVal given or not, Float/Integer, and checks RowOrder, ColumnIndependent, MaskExact, RoundTrip, ErrorLineIsPhysical on CsvIO.Read/Write; "
-                       "the <= 2-row tables are written to disk with concrete doubles (random bit patterns, subnormals, extremes, -0.0, integral values; LF/CRLF), read by the real EEMSRead through "
+                       "the tables (quick: a seed-dependent tenth of them) are written to disk with concrete doubles (random bit patterns, subnormals, extremes, -0.0, integral values; LF/CRLF), read by the real EEMSRead through "
                        "Command.result, the column written by the real EEMSWrite under names that need quoting and read back; values are compared by float.hex identity and every observation is validated "
                        "by TLC. non-trivial = table with at least two lines")
     chk.cov["exhaustive"] = False
